@@ -281,6 +281,7 @@ var kindOf = map[string]string{
 	"roles": "Role", "rolebindings": "RoleBinding", "gadgets": "Gadget", "daemonsets": "DaemonSet", "statefulsets": "StatefulSet",
 	"replicasets": "ReplicaSet", "ingresses": "Ingress", "networkpolicies": "NetworkPolicy", "cronjobs": "CronJob",
 	"limitranges": "LimitRange", "resourcequotas": "ResourceQuota", "endpoints": "Endpoints",
+	"clusterroles": "ClusterRole",
 }
 
 func status(code int, reason, msg string) []byte {
